@@ -5,7 +5,8 @@ filter, operation sequence and arrival sequence with distinct reply serials; con
 order for signals and calls, replies only to the matching serial, accepted = handed out once or still
 waiting, rejected never handed out, one unknown-method error per rejected call, correctly addressed).
 Tie: the extracted model (ocaml/c14) and the real RpcConn (harness bin c14: real DuplexConn, the
-peer end of the socket writes the arrivals and reads back what RpcConn sends) run the same operation
+peer end of the socket writes the arrivals and reads back what RpcConn sends; in the stream
+connect_to_path the client is built by RpcConn::connect_to_path against a scripted bus) run the same operation
 sequences under the same filter (chosen by index from a table written in both places); every
 operation's result and every error seen at the peer or returned by refill_all must agree.  The
 property predicate is also evaluated directly on the implementation's output for every sequence.
@@ -26,15 +27,18 @@ FLAGS = [0, 0, 1, 2, 4, 7, 255]      # NO_REPLY_EXPECTED = 1, NO_AUTO_START = 2,
 
 def gen_messages(r, n, serial0=1):
     """n message specs <kind>.<serial>.<reply>.<member>.<sender>.<iface>.<flags>.<byte order>.<destination> with
-    distinct serials and distinct reply serials (the body varies with the serial)"""
+    distinct serials and distinct reply serials among the replies and errors (the body varies with the serial). About a
+    fifth of the calls and signals carry a REPLY_SERIAL field as well - a fresh one or the one of a reply/error of the
+    same set: they are still calls and signals and must be routed by their type"""
     out = []
-    replies = r.sample(range(100, 140 + 4 * n), n)
+    replies = r.sample(range(100, 140 + 8 * n), 2 * n)
     for i in range(n):
         k = r.choice("ccssre")
         serial = serial0 + i
         extra = ".%d.%s.%d" % (r.choice(FLAGS), r.choice("lB"), r.randrange(2))
         if k in "cs":
-            out.append("%s.%d.0.%s.%d.%d%s" % (k, serial, r.choice(MEMBERS), r.randrange(2), r.randrange(2), extra))
+            rep = r.choice(replies) if r.random() < 0.2 else 0
+            out.append("%s.%d.%d.%s.%d.%d%s" % (k, serial, rep, r.choice(MEMBERS), r.randrange(2), r.randrange(2), extra))
         else:
             out.append("%s.%d.%d.-.%d.0%s" % (k, serial, replies[i], r.randrange(2), extra))
     return out
@@ -56,11 +60,12 @@ def split_class(k):
     return "split:fixed header" if int(k) < 16 else "split:header fields/padding"
 
 
-def gen_ops(r, arrivals, style, split=0.0):
+def gen_ops(r, arrivals, style, split=0.0, before=(), more_serials=()):
     """operations interleaved with the arrivals, then a complete drain. With probability [split] an arrival
     is written by the peer in two pieces (ap:<spec>:<k> ... af) with client operations in between; only
-    client operations may stand between the two pieces (the pieces are consecutive in the byte stream)."""
-    serials = [reply_serial(a) for a in arrivals if reply_serial(a)]
+    client operations may stand between the two pieces (the pieces are consecutive in the byte stream).
+    [before]: messages that have arrived already (the connect prologue); the drain covers them too."""
+    serials = sorted(set([reply_serial(a) for a in list(before) + list(arrivals) if reply_serial(a)] + list(more_serials)))
     ops = []
 
     def arrive(a):
@@ -91,7 +96,10 @@ def gen_ops(r, arrivals, style, split=0.0):
             return "ro"
         if k < 0.93:
             return "tro"
-        if k < 0.96:
+        if k < 0.945:
+            # RpcConn's two pass-throughs to SendConn (invisible to the model: they must not disturb anything)
+            return r.choice(["as", "sm"])
+        if k < 0.965:
             # a new filter mid-run; the socket is drained first so that it applies to later arrivals only
             return "ra,sf:%d" % r.randrange(NFILTERS)
         return "ra"
@@ -111,7 +119,7 @@ def gen_ops(r, arrivals, style, split=0.0):
     for _ in range(r.choice([0, 1, 2, 4, 6]) if style != "drain_only" else 0):
         ops.append(some_op())
     # complete drain
-    n = len(arrivals)
+    n = len(arrivals) + len(before)
     ops.append(r.choice(["ra", "ra", "ro", "ws", "wc"]))
     ops.append("ra")
     drain = ["ts"] * (n + 1) + ["tc"] * (n + 1) + ["tr:%d" % s for s in serials] + ["tr:%d" % s for s in serials]
@@ -119,6 +127,30 @@ def gen_ops(r, arrivals, style, split=0.0):
         r.shuffle(drain)
     ops += drain
     return [x for o in ops for x in o.split(",")]
+
+
+def gen_connect(r):
+    """The client is built by RpcConn::connect_to_path (what session_conn / system_conn call): the scripted bus answers
+    the Hello call (serial 1: the first serial of a new SendConn) with k arbitrary messages in front of the reply (or
+    error) to Hello and m behind it, all written before connect_to_path can return.  For the model that is: those
+    arrivals, then `wait_response 1` as the first client operation (default filter).  Then the usual operations,
+    possibly a set_filter, further arrivals and the complete drain, which covers the prologue's messages too."""
+    k = r.choice([0, 1, 1, 2, 2, 3, 4, 6])
+    m = r.choice([0, 0, 0, 1, 2, 3])
+    later = r.choice([0, 0, 1, 2, 3, 4])
+    msgs = gen_messages(r, k + m + later, serial0=2)
+    r.shuffle(msgs)
+    hello = "%s.%d.1.-.%d.0.%d.%s.%d" % (r.choice("rrre"), k + m + later + 2, r.randrange(2), r.choice(FLAGS), r.choice("lB"), r.randrange(2))
+    pro = msgs[:k] + [hello] + msgs[k:k + m]
+    ops = ["ca:" + a for a in pro] + ["cn:1"]
+    f = r.random()
+    if f < 0.45:
+        ops += ["ra", "sf:%d" % r.randrange(NFILTERS)]       # applies to later arrivals (the socket is drained first)
+    elif f < 0.55:
+        ops += ["sf:0"]                                      # a set_filter call with the same verdicts as the default
+    ops += gen_ops(r, msgs[k + m:], r.choice(["mixed", "mixed", "light", "after_all", "drain_only"]),
+                   split=r.choice([0.0, 0.0, 0.3]), before=pro, more_serials=(1,))
+    return ops
 
 
 # ------------------------------------------------------------------ the property on the implementation's own output
@@ -165,6 +197,8 @@ def property_verdict(ops, toks):
         return "operation %s did not return within 2 s although the message it waits for had arrived" % ops[len(toks) - 1]
     if len(toks) != len(ops):
         return "harness produced %d results for %d operations" % (len(toks), len(ops))
+    # the connect prologue in the terms of the model: `ca` = an arrival, `cn:<s>` = wait_response(s) inside connect_to_path
+    ops = [("a:" + o[3:]) if o.startswith("ca:") else ("wr:" + o[3:]) if o.startswith("cn:") else o for o in ops]
     arrived = {}          # ident -> (index of arrival, accepted)
     part = None           # spec of the arrival whose first piece has been written
     order = []
@@ -187,7 +221,9 @@ def property_verdict(ops, toks):
             order.append(ident)
             continue
         if tok.startswith("E") or tok.startswith("PANIC") or tok.startswith("LEFTOVER") or tok == "?":
-            return "operation %s failed with %s" % (op, tok[:60])
+            return "operation %s failed with %s" % (op, tok[:90])
+        if p[0] in ("as", "sm"):
+            continue
         if tok.startswith("R"):
             errors += [x for x in tok[1:].split(";") if x]
         if tok.startswith("M"):
@@ -243,6 +279,12 @@ def run_batch(ctx, exe, drv, cases, kind):
                 part = o.split(":")[1]
             elif o == "af":
                 out.append("a:" + part)
+            elif o in ("as", "sm"):
+                pass                                  # alloc_serial / send_message: no operation of the model
+            elif o.startswith("ca:"):
+                out.append("a:" + o[3:])              # written by the scripted bus during connect_to_path
+            elif o.startswith("cn:"):
+                out.append("wr:" + o[3:])             # connect_to_path = wait_response(serial of Hello), default filter
             else:
                 out.append(o)
         return out
@@ -261,11 +303,14 @@ def run_batch(ctx, exe, drv, cases, kind):
             if op.startswith("ap:"):
                 h_ops.append(op)
                 h_exp.append("p|")
+            elif op in ("as", "sm"):
+                h_ops.append(op)
+                h_exp.append("S|")
             else:
                 m_op, m_res = next(mo_ops), next(mo_res)
                 if m_op.endswith(":I") and frng.random() < 0.35:
                     m_op = m_op[:-1] + "F"          # really Timeout::Infinite: the model says the message is there
-                h_ops.append("af" if op == "af" else m_op)
+                h_ops.append("af" if op == "af" else op if op.startswith("ca:") else "cn:" + m_op[3:] if op.startswith("cn:") else m_op)
                 h_exp.append(m_res)
         hl.append("run %d %s" % (f, ",".join(h_ops)))
         exp.append(",".join(h_exp))
@@ -304,14 +349,31 @@ def judge(ctx, exe, kind, filters, hl, exp, iout):
         if "HANG|" in io:
             # a wait with the 2 s stand-in for Infinite timed out although the model says its message is there:
             # before that counts, the sequence runs once more, alone, with a 20 s deadline
+            # (at most 8 such re-runs per run - each may take 20 s; a HANG beyond that is not judged at all: it is
+            # counted as not evaluated, which ends the run as a broken tie, never as a violation)
+            if ctx.extra.get("hang_reruns", 0) >= 8:
+                ctx.extra["not_evaluated"] = ctx.extra.get("not_evaluated", 0) + 1
+                ctx.count("HANG cases not re-run (more than 8 in one run)")
+                continue
+            ctx.extra["hang_reruns"] = ctx.extra.get("hang_reruns", 0) + 1
             ctx.count("HANG re-runs")
             rc, again, _ = vlib.run_lines(exe, [], [line], timeout=600, env={"C14_LONG_MS": "20000"})
             if rc == 0 and len(again) == 1:
                 io = again[0]
         ops = line.split(" ", 2)[2].split(",")
         toks = parse_tokens(io)
-        narr = sum(1 for o in ops if o.startswith("a:") or o == "af")
+        narr = sum(1 for o in ops if o.startswith("a:") or o == "af" or o.startswith("ca:"))
         nrej = sum(1 for o, t in zip(ops, toks) if (o.startswith("a:") or o == "af") and t[0] == "-")
+        cn = [i for i, o in enumerate(ops) if o.startswith("cn:")]
+        if cn:
+            ctx.count("client built by RpcConn::connect_to_path (scripted bus)")
+            hello = [i for i in range(cn[0]) if ops[i].split(".")[2] == ops[cn[0]].split(":")[1] and ops[i][3] in "re"][0]
+            ctx.count("  arrivals in front of the Hello reply: %s" % (hello if hello < 4 else "4+"))
+            ctx.count("  arrivals behind the Hello reply, written before connect_to_path returns", cn[0] - 1 - hello)
+            ctx.count("  Hello answered by an error", 1 if ops[hello][3] == "e" else 0)
+        ctx.count("calls/signals carrying a REPLY_SERIAL field", sum(
+            1 for o in ops if o[:2] in ("a:", "ap", "ca") and o.split(":")[1][0] in "cs" and o.split(":")[1].split(".")[2] != "0"))
+        ctx.count("alloc_serial / send_message calls", sum(1 for o in ops if o in ("as", "sm")))
         splits = [o.split(":")[2] for o in ops if o.startswith("ap:")]
         ctx.count("sequences with a split arrival", 1 if splits else 0)
         for k in splits:
@@ -325,7 +387,7 @@ def judge(ctx, exe, kind, filters, hl, exp, iout):
                 inside = False
             elif inside and o[:2] in ("wr", "ws", "wc", "ro", "ra"):
                 ctx.count("socket reads between the two pieces of an arrival")
-        nontrivial = narr >= 2 and any(o[:2] in ("wr", "ws", "wc", "ro", "ra") for o in ops[:-1])
+        nontrivial = narr >= 2 and any(o[:2] in ("wr", "ws", "wc", "ro", "ra", "cn") for o in ops[:-1])
         ctx.case((f, tuple(ops)), nontrivial=nontrivial,
                  sample={"filter": f, "ops": ",".join(ops)[:500], "results": io[:500]} if kind == "random" and len(ops) < 30 else None)
         ctx.count("kind:" + kind)
@@ -443,11 +505,18 @@ def run(ctx):
                 "message, Nonblock when it does not and the socket is non-empty, Duration(1ms) on an empty socket. non-trivial = at "
                 "least two arrivals and a wait/refill operation before the final one; distinct = distinct (filter, sequence). Extra stream "
                 "'tiny deadlines': wait_* / refill_once with Duration(0..200 us) while messages are queued; the harness reports the "
-                "outcome and how many arrivals the call read (FIONREAD), the model is run along that branch")
+                "outcome and how many arrivals the call read (FIONREAD), the model is run along that branch. Stream 'connect_to_path': the client "
+                "is built by RpcConn::connect_to_path (the body of session_conn/system_conn: auth handshake, Hello through RpcConn::send_message, "
+                "wait_response) against a scripted bus that answers the Hello call with 0-6 arbitrary messages in front of the reply or error "
+                "to Hello and 0-3 behind it; in the model that is these arrivals followed by wait_response(1) under the default filter; then "
+                "set_filter (about half), further operations and arrivals, and the drain, which covers the prologue's messages. About a fifth "
+                "of all generated calls and signals carry a REPLY_SERIAL field (fresh, or equal to that of a reply in the same sequence); "
+                "alloc_serial and send_message (a call the peer must receive) are sprinkled among the operations")
     ctx.trusted = ["Coq 8.16.1 kernel (coqc), no native_compute", "extraction with ExtrOcamlBasic only, ocamlfind ocamlopt 4.13.1",
-                   "ocaml/c14/driver.ml and harness/src/bin/c14.rs (I/O wrappers; the filter table is written in Conn/Rpc.v and in c14.rs - both print their verdict per arrival and these are compared)",
+                   "ocaml/c14/driver.ml and harness/src/bin/c14.rs (I/O wrappers; the filter table is written in Conn/Rpc.v and in c14.rs - both print their verdict per arrival and these are compared; c14.rs also contains the scripted bus of the connect_to_path stream: server side of the auth handshake, reads the Hello call and checks its serial, writes the scripted answer)",
                    "RecvConn::get_next_message and SendConn::send_message/write_all are black boxes in the model (properties C09, C10)"]
-    ctx.assumptions = ["replies and errors carry pairwise distinct reply serials (HashMap::insert would otherwise replace the earlier one - shown as an Example)",
+    ctx.assumptions = ["RpcConn::connect_to_path (and session_conn/system_conn, which only look up the address) has no operation of its own in the model: its body is RpcConn::new, send_message(Hello) and wait_response(serial of Hello), and it is run in the model as the messages the bus writes followed by wait_response(1) under the default filter; a connect_to_path that times out or fails returns no RpcConn and is not exercised",
+                       "replies and errors carry pairwise distinct reply serials (HashMap::insert would otherwise replace the earlier one - shown as an Example)",
                        "arrivals are messages the wire format can carry (type 1..4; replies/errors have a reply serial - guaranteed by validate_header_fields)",
                        "time-outs that strike between two refills of one wait call (the model's budget argument) are produced on the real connection with deadlines of 0-200 us; how often each budget occurs depends on the machine and is reported in the input distribution",
                        "sending the unknown-method error succeeds (the peer keeps reading) and the connection does not fail in the middle of a drain: the real refill_all returns `Err(e)` on any receive error other than TimedOut and then drops the unknown-method replies it has collected so far, and a failed send in insert_message_or_send_error drops the rejected call without an answer; neither path is in the model or exercised by the harness",
@@ -505,6 +574,10 @@ def run(ctx):
         r.shuffle(msgs)
         cases.append((r.randrange(NFILTERS), gen_ops(r, msgs, r.choice(["mixed", "light", "after_all"]), split=r.choice([0.5, 1.0]))))
     run_batch(ctx, exe, drv, cases, "split arrivals")
+
+    # the public constructor path: connect_to_path's own wait_response while other messages arrive
+    cases = [(16, gen_connect(r)) for _ in range(8000 if thorough else 500)]
+    run_batch(ctx, exe, drv, cases, "connect_to_path")
 
     # long sequences: any bound an implementation might put on a queue, the map or the list of collected errors
     cases = []
